@@ -250,52 +250,83 @@ func checkC20(c *Ctx) {
 				_, names := an.FieldChain(x)
 				return len(names) > 0 && names[len(names)-1] == "Operation"
 			})
-			if len(ifs) != 1 {
-				R.Fail("C20-arms", key, c.P.Pos(h.Pos()), sprintf("handleModify has no (single) arm for operation %d (%s)", op, opName[op]))
+			if len(ifs) == 0 {
+				R.Fail("C20-arms", key, c.P.Pos(h.Pos()), sprintf("handleModify has no arm for operation %d (%s)", op, opName[op]))
 				continue
 			}
-			arm := succOn(ifs[0].If, !ifs[0].Neg)
-			// the arm ends where control leaves the region dominated by `arm`
-			leaves := func(in ssa.Instruction) bool {
-				return !arm.Dominates(in.Block()) || an.IsExit(in)
-			}
-			// paths on which the attribute does not exist are exempt for delete / replace
-			notFound := func(in ssa.Instruction) bool {
-				if op == 0 {
-					return false
+			// where the processing of one change ends: the head of the loop over m.Changes (next change) or an exit
+			var chgHead *ssa.BasicBlock
+			an.Instrs(h, func(in ssa.Instruction) {
+				iff, ok := in.(*ssa.If)
+				if !ok || !an.IsRangeHeader(iff) {
+					return
 				}
-				return hasFact(in.Block(), true, func(v ssa.Value) bool {
-					x, trueMeansNil, ok := an.NilCheck(v)
-					return ok && trueMeansNil && an.TypeIs(x.Type(), G, "EntryAttribute")
-				}) || hasFact(in.Block(), false, func(v ssa.Value) bool {
-					x, trueMeansNil, ok := an.NilCheck(v)
-					return ok && !trueMeansNil && an.TypeIs(x.Type(), G, "EntryAttribute")
-				})
+				if bo, ok := iff.Cond.(*ssa.BinOp); ok {
+					if lc, ok := bo.Y.(*ssa.Call); ok && len(lc.Common().Args) == 1 {
+						if _, names := an.FieldChain(lc.Common().Args[0]); len(names) > 0 && names[len(names)-1] == "Changes" {
+							chgHead = iff.Block()
+						}
+					}
+				}
+			})
+			leaves := func(in ssa.Instruction) bool {
+				if an.IsExit(in) {
+					return true
+				}
+				return chgHead != nil && in.Block() == chgHead && an.PointOf(in).I == 0
 			}
 			needVals := op != 1
-			// the false edge of `found != nil` leaves the arm directly when there is no else: treat the join as "left without effect" only if reached without passing the nil test's false side
-			w := an.Search(an.Point{B: arm, I: 0}, leaves, or(isEffect(needVals), notFound))
-			if w != nil && op != 0 {
-				// allow leaving through the not-found edge: the If on foundAttr in the arm
-				nf := ifsOn(h, func(v ssa.Value) bool {
-					x, _, ok := an.NilCheck(v)
-					return ok && an.TypeIs(x.Type(), G, "EntryAttribute")
-				})
-				okVia := false
-				for _, g := range nf {
-					if !arm.Dominates(g.If.Block()) {
-						continue
-					}
-					v, _ := an.Not(g.If.Cond)
-					_, trueMeansNil, _ := an.NilCheck(v)
-					found := succOn(g.If, trueMeansNil == g.Neg)
-					// every path from the arm entry passes this test, and from the found edge no path leaves without an effect
-					if an.Search(an.Point{B: arm, I: 0}, leaves, isInstr(g.If)) == nil && an.Search(an.Point{B: found, I: 0}, leaves, isEffect(needVals)) == nil {
-						okVia = true
+			// the tests `found != nil` of the handler (one SSA value tested in several places counts as one condition)
+			foundKeys := map[string]bool{} // CondKey -> value of the key when the attribute exists
+			an.Instrs(h, func(in ssa.Instruction) {
+				iff, ok := in.(*ssa.If)
+				if !ok {
+					return
+				}
+				// the condition itself, or the operands of a short-circuit && / || compiled to a phi of booleans
+				conds := []ssa.Value{iff.Cond}
+				if phi, isPhi := iff.Cond.(*ssa.Phi); isPhi {
+					conds = nil
+					for _, e := range phi.Edges {
+						if _, isC := e.(*ssa.Const); !isC {
+							conds = append(conds, e)
+						}
 					}
 				}
-				if okVia {
-					w = nil
+				for _, cv := range conds {
+					cond, cneg := an.Not(cv)
+					if x, trueMeansNil, ok := an.NilCheck(cond); ok && an.TypeIs(x.Type(), G, "EntryAttribute") {
+						// value of the condition when the attribute was found: `x != nil` true, `x == nil` false, through the Not prefix;
+						// SearchCorr keeps per key the value of the un-negated comparison: condition value != kneg
+						k, kneg := an.CondKey(cv)
+						condWhenFound := (!trueMeansNil) != cneg
+						foundKeys[k] = condWhenFound != kneg
+					}
+				}
+			})
+			var w []ssa.Instruction
+			cases := []bool{true} // attribute present
+			if op == 0 {
+				cases = []bool{true, false} // add must change the entry in both cases
+			}
+			for _, g := range ifs {
+				for _, present := range cases {
+					known := map[string]bool{}
+					// the arm is entered when `Operation == op` holds, i.e. when the If's condition has the value !g.Neg;
+					// SearchCorr keeps, per key, the value of the un-negated comparison: condition value != kneg
+					k, kneg := an.CondKey(g.If.Cond)
+					known[k] = (!g.Neg) != kneg
+					for fk, fv := range foundKeys {
+						if present {
+							known[fk] = fv
+						} else {
+							known[fk] = !fv
+						}
+					}
+					arm := succOn(g.If, !g.Neg)
+					if x := an.SearchCorr(an.Point{B: arm, I: 0}, leaves, isEffect(needVals), known); x != nil && w == nil {
+						w = x
+					}
 				}
 			}
 			if w != nil {
@@ -652,6 +683,10 @@ func checkC20(c *Ctx) {
 		}
 		R.Trivial("C20-noalias", "no in-place write into a possibly shared Values / ByteValues backing array", "-", "NewEntryAttribute keeps the caller's slice; all writers install fresh slices or append to the full slice")
 	}
+	// the directory lock every handler takes is released again: a d.mu left locked makes every later operation
+	// on the directory block, so nothing is "reflected in later searches" any more
+	c.checkLockRelease("C20-lockrelease", c.shippedFuncs(TD), "every later request to the directory blocks for ever")
+	R.Floor("C20-lockrelease", 4)
 	R.Floor("C20-arms", 3)
 	R.Floor("C20-pairing", 2)
 	R.Floor("C20-search-source", 2)
